@@ -25,6 +25,7 @@ type c44Var struct {
 	global  bool // has global scope
 	session bool // has session scope
 	dynamic bool
+	partner string // charset <-> collation pairs: setting one sets the other in the same scope
 }
 
 var c44Vars = []c44Var{
@@ -39,6 +40,10 @@ var c44Vars = []c44Var{
 	{name: "local_infile", kind: "bool", global: true, session: false, dynamic: true},
 	{name: "long_query_time", kind: "double", lo: 0, hi: 1 << 40, global: true, session: true, dynamic: true},
 	{name: "transaction_isolation", kind: "enum", enum: []string{"READ-UNCOMMITTED", "READ-COMMITTED", "REPEATABLE-READ", "SERIALIZABLE"}, global: true, session: true, dynamic: true},
+	{name: "character_set_server", kind: "charset", global: true, session: true, dynamic: true, partner: "collation_server"},
+	{name: "collation_server", kind: "collation", global: true, session: true, dynamic: true, partner: "character_set_server"},
+	{name: "character_set_connection", kind: "charset", global: true, session: true, dynamic: true, partner: "collation_connection"},
+	{name: "collation_connection", kind: "collation", global: true, session: true, dynamic: true, partner: "character_set_connection"},
 	{name: "lower_case_table_names", kind: "int", lo: 0, hi: 2, global: true, session: false, dynamic: false},
 	{name: "version_comment", kind: "enum", enum: []string{"x"}, global: true, session: false, dynamic: false},
 }
@@ -101,6 +106,18 @@ func c44GenValue(T *kernel.Tape, v *c44Var) c44Value {
 			x := T.Draw(50)
 			return c44Value{fmt.Sprint(x), fmt.Sprint(x), true, false}
 		}
+	case "charset":
+		if T.Bool(1, 6) {
+			return c44Value{"'nocharset'", "", false, true}
+		}
+		e := []string{"utf8mb4", "latin1", "utf8mb3", "ascii"}[T.Draw(4)]
+		return c44Value{"'" + e + "'", e, true, false}
+	case "collation":
+		if T.Bool(1, 6) {
+			return c44Value{"'no_such_collation'", "", false, true}
+		}
+		e := []string{"utf8mb4_0900_ai_ci", "utf8mb4_bin", "latin1_swedish_ci", "latin1_bin", "utf8mb3_general_ci", "ascii_bin"}[T.Draw(6)]
+		return c44Value{"'" + e + "'", e, true, false}
 	case "enum":
 		if T.Bool(1, 4) {
 			return c44Value{"'NOPE'", "", false, true}
@@ -177,10 +194,10 @@ func checkC44(env *kernel.Env) {
 	userNames := []string{"u1", "u2", "u3"}
 	// full cross-check of every scope of every session against the model
 	// only is the variable touched by the last step ("" = check everything)
-	only := ""
+	only, only2 := "", ""
 	verifyAll := func(what string) {
 		for _, v := range c44Vars {
-			if only != "" && v.name != only {
+			if only != "" && v.name != only && v.name != only2 {
 				continue
 			}
 			got, err := readVar(sess[0].s, "global", v.name)
@@ -191,7 +208,7 @@ func checkC44(env *kernel.Env) {
 		}
 		for _, x := range sess {
 			for _, v := range c44Vars {
-				if !v.session || (only != "" && v.name != only) {
+				if !v.session || (only != "" && v.name != only && v.name != only2) {
 					continue
 				}
 				got, err := readVar(x.s, "session", v.name)
@@ -223,11 +240,11 @@ func checkC44(env *kernel.Env) {
 	steps := T.Range(5, 40)
 	for step := 0; step < steps && !env.Failed(); step++ {
 		x := sess[T.Draw(len(sess))]
-		only = ""
+		only, only2 = "", ""
 		switch T.Pick(10, 4, 1, 1) {
 		case 0:
 			v := &c44Vars[T.Draw(len(c44Vars))]
-			only = v.name
+			only, only2 = v.name, v.partner
 			val := c44GenValue(T, v)
 			scope := []string{"SESSION", "GLOBAL", ""}[T.Draw(3)] // "" = session by default
 			q := fmt.Sprintf("SET %s %s = %s", scope, v.name, val.lit)
@@ -252,10 +269,25 @@ func checkC44(env *kernel.Env) {
 			case r.Err != nil && val.valid && v.dynamic && scopeOK:
 				env.Fail("valid-set-accepted", "valid-set-rejected", "%s failed: %v", q, r.Err)
 			case r.Err == nil && val.valid:
+				store := x.sys
+				scopeName := "session"
 				if isGlobal {
-					global[v.name] = val.canon
-				} else {
-					x.sys[v.name] = val.canon
+					store, scopeName = global, "global"
+				}
+				store[v.name] = val.canon
+				if v.partner != "" {
+					// the partner follows in the same scope (and nowhere else): a charset
+					// brings one of its own collations (which one is the engine's default
+					// for it: learned, then held), a collation brings its charset
+					got, _ := readVar(x.s, scopeName, v.partner)
+					env.Probe("linked-variable-set")
+					if v.kind == "collation" {
+						store[v.partner] = strings.SplitN(val.canon, "_", 2)[0]
+					} else if strings.HasPrefix(got, val.canon+"_") {
+						store[v.partner] = got
+					} else {
+						env.Fail("linked-variables", "partner-not-updated", "%s succeeded, but @@%s.%s reads %q, which is not a collation of %s", q, scopeName, v.partner, got, val.canon)
+					}
 				}
 			case r.Err == nil && !val.valid:
 				// out of range and accepted: the engine adjusted it; learn the value, it must lie inside the bounds
